@@ -151,6 +151,16 @@ pub fn seed_keys(name: &str) -> Vec<Key> {
             k[0] = 0x90;
             vec![k]
         }
+        // 1500 keys sharing 30 bytes with 1300-byte values: 500 leaves, twice what a 1 MiB leaf
+        // cache holds, so with `leaf_cache: 1` every shard of the cache is over its budget
+        "wide" => (0..1500u32)
+            .map(|i| {
+                let mut k = [0x66u8; 32];
+                k[30] = (i >> 8) as u8;
+                k[31] = (i & 0xff) as u8;
+                k
+            })
+            .collect(),
         // 450 keys sharing 247 bits + 3 far keys (one commit): a branch node whose builder stops
         // prefix compression (prefix_compressed < n)
         "pfx" => {
@@ -204,7 +214,7 @@ pub fn seed_keys(name: &str) -> Vec<Key> {
 
 fn seed_value(name: &str, idx: usize) -> Vec<u8> {
     match name {
-        "leaf" | "branch" => util::value(1000 + idx as u64, 1300),
+        "leaf" | "branch" | "wide" => util::value(1000 + idx as u64, 1300),
         "bulk" => util::value(5000 + idx as u64, 1 + idx % 40),
         "ovf" => util::value(77, 5 * 1024 * 1024),
         "pfx" => util::value(4000 + idx as u64, 1000),
